@@ -101,7 +101,10 @@ ASSUMPTIONS = [
     "RunningStatistics.converged replaced by an oracle answering with a solver-chosen boolean per sample count; "
     "what `converged` computes is decided separately by the Engine B kernel over the reals",
     "samples are symbolic ints (a symbolic float forks four ways on nan/inf); verbosity=0 (no progress bar)",
-    "FLOATING-POINT CONDITIONING IS OUTSIDE THE CLAIM: the identities are decided over the reals, so an "
-    "algebraically equivalent but numerically unstable rewrite (naive sum of squares) is not detected",
+    "the closed-form identities are decided over the reals; floating-point conditioning is decided separately and "
+    "only within small bounds: binary64 (round-to-nearest-even) encodings of RunningStatistics / "
+    "RunningCovariance on K=2 (thorough: 3) lattice inputs c + 2^-10 * t with offsets 1e9 / 1, accuracy bound "
+    "|M2 - exact| <= 8*u*K*xmax*(R + u*xmax); longer sequences, inputs off the lattice and the matrix class in "
+    "binary64 are outside the claim; `x ** 2` is modelled as the correctly rounded product",
     "closed forms are checked per K (not by induction on K)",
 ]
